@@ -293,7 +293,12 @@ def run(tier, seed, replay=None):
                     continue
                 ig = instgen.InstGen(util.rng(seed, PROP, "inst", cid, dname), doc["definitions"], hard_depth=14)
                 for v in ig.instances(dschema, 4):
-                    if orc.valid(v, dname):
+                    try:
+                        ok = orc.valid(v, dname)
+                    except Exception:   # ill-founded schemas (N = anyOf[N, null]) recurse forever in the oracle
+                        rep.count("oracle_error")
+                        continue
+                    if ok:
                         probes.append({"pid": len(probes), "case": cid, "ty": tname, "op": "de",
                                        "input": instgen.to_text(v), "depth": depth(v)})
         outs, ab, to, sk = run2.probe([{k_: v for k_, v in p.items() if k_ != "depth"} for p in probes])
